@@ -339,8 +339,11 @@ def ob_shapes(ctx, H, bodies):
 
 
 def _extract():
+    import os
     from sx.extract import ExtractError, loop_step, surround
     UD, _, _ = _mods()
+    if os.environ.get('SX_FORCE_SKIP_STEPS'):
+        return None, None, 'SX_FORCE_SKIP_STEPS set (experiment)'
     try:
         step, info = loop_step(UD.get_unified_diff_hunks)
         post, names = surround(UD.get_unified_diff_hunks)
